@@ -159,6 +159,37 @@ func All() []T {
 }
 `, b))
 	}
+	for _, w := range []int{2, 3} {
+		add(fmt.Sprintf("T9 shared-func-value-call-site workers=%d", w), fmt.Sprintf(`type calc struct{ k int }
+
+func (c calc) mul(x, y int) int { return x*y + c.k }
+
+func apply(f func(int, int) int, x, y int) int { return f(x, y) }
+
+var sq = func(x, k int) int { return x*x + k }
+
+// a named worker: go statements on named functions are not affected by the function-literal slot defect
+func worker(id int, res []int, wg *sync.WaitGroup) {
+	defer wg.Done()
+	c := calc{id}
+	m := c.mul
+	for j := 1; j <= 2; j++ {
+		res[id] += sq(j, id) + apply(sq, j, id) + m(j, id+1)
+	}
+}
+
+func main() {
+	var wg sync.WaitGroup
+	res := make([]int, %d)
+	for w := 0; w < %d; w++ {
+		wg.Add(1)
+		go worker(w, res, &wg)
+	}
+	wg.Wait()
+	Show(res)
+}
+`, w, w))
+	}
 	add("T8 select-default-poll", `func main() {
 	ch := make(chan int)
 	ack := make(chan bool)
@@ -207,6 +238,16 @@ func Inc() int {
 	t++
 	n = t
 	return n
+}
+
+var sq = func(x, k int) int { return x*x + k }
+
+func Apply(x int) int {
+	t := 0
+	for i := 0; i < 3; i++ {
+		t += sq(x, i)
+	}
+	return t
 }
 
 func Pair(x int) (int, []int) {
